@@ -138,3 +138,14 @@ pub open spec fn raw_piece(n: &SyntaxNode) -> Seq<DocV> {
 pub open spec fn raw_pieces(ch: Seq<&SyntaxNode>) -> Seq<DocV> decreases ch.len() {
     if ch.len() == 0 { Seq::empty() } else { raw_pieces(ch.drop_last()) + raw_piece(ch.last()) }
 }
+/// `lc_followed` behind an opaque name (its trigger `ch[j]` yields the term `ch[j + 1]`: kept out of loops with many other quantifiers)
+#[verifier::opaque]
+pub open spec fn lc_followed_o(ch: Seq<&SyntaxNode>) -> bool { lc_followed(ch) }
+pub proof fn lemma_lc_o_intro(ch: Seq<&SyntaxNode>)
+    requires lc_followed(ch),
+    ensures lc_followed_o(ch),
+{ reveal(lc_followed_o); }
+pub proof fn lemma_lc_o_at(ch: Seq<&SyntaxNode>, j: int)
+    requires lc_followed_o(ch), 0 <= j, j + 1 < ch.len(), ch[j].kind_s() == SyntaxKind::LineComment,
+    ensures is_nl_space(ch[j + 1]),
+{ reveal(lc_followed_o); }
